@@ -112,6 +112,16 @@ static int call(int run, Circuit &c, const char *obj, const std::string &stage, 
   vt::emit(b);
   int idx = 0;
   PlacementCallback cb = [&](PlacementStep s) {
+    if (idx >= 1000) {
+      // a call that never stops calling back: say so once, then stop logging (see calls.hpp)
+      if (idx == 1000) {
+        Value fl = vt::ev("CbFlood");
+        fl.set("run", run).set("obj", obj).set("idx", idx);
+        vt::emit(fl);
+      }
+      ++idx;
+      return;
+    }
     Value e = vt::ev("Cb");
     e.set("run", run).set("obj", obj).set("step", stepName(s)).set("idx", idx).set("circ", vp::circuitToJson(c)).set("wl", c.hpwl());
     vt::emit(e);
